@@ -74,6 +74,25 @@ def confCase (id : String) (payload : List Sexp) : List String :=
     | none => err id "bad-opts"
   | _ => err id "bad-conf-case"
 
+/-- `(with OPT)` | `(set OPT)` | `build` | `copy` -/
+def parseCOp : Sexp → Option COp
+  | .atom "build" => some .build
+  | .atom "copy" => some .copy
+  | .list [.atom "with", o] => (parseOpt o).map .apply
+  | .list [.atom "set", o] => (parseOpt o).map .apply
+  | _ => none
+
+/-- `(confhist (ops (with (use 1)) build (set (log true)) build copy …))`: the trace of every build -/
+def confHistCase (id : String) (payload : List Sexp) : List String :=
+  match payload with
+  | [.list (.atom "ops" :: ops)] =>
+    match ops.mapM parseCOp with
+    | some h =>
+      let sh (ts : List (List Event)) := (ts.zipIdx).map (fun (t, i) => (s!"b{i}", showTrace t))
+      both id (sh (runConf zeroConf h)) (sh (specBuildsFrom [] h))
+    | none => err id "bad-ops"
+  | _ => err id "bad-confhist-case"
+
 def rtParseOp : Sexp → Option Op
   | .list [.atom "reg", t, k] => do some (.reg (← t.asNat?) (← k.asNat?))
   | .list [.atom "new", t, o] => do some (.new (← t.asNat?) (← parseOpts o))
